@@ -78,3 +78,19 @@ package tchannel
 //@ func (c *Connection) handleCallReq(frame *Frame) (release bool)
 //@   nopanic
 //@   property C03
+
+// C17 "each attempt sees ... the peers already tried": EVERY call that is begun
+// on a peer records that peer in the request state first -- also calls that
+// address the peer directly (Channel.BeginCall with a host:port, Peer.BeginCall),
+// not only those whose peer was chosen by a sub-channel.
+//@ func (p *Peer) BeginCall(ctx context.Context, serviceName, methodName string, callOptions *CallOptions) (call *OutboundCall, err error)
+//@   nilable callOptions
+//@   nosafety
+//@   requires ctx != nil
+//@   modifies all
+//@   label the-peer-is-recorded-as-tried-before-anything-else
+//@   atcall validateCall calls(AddSelectedPeer) == 1
+//@   label recorded-under-its-own-hostport
+//@   atcall AddSelectedPeer arg1 == p.hostPort
+//@   ensures calls(AddSelectedPeer) == 1
+//@   property C17
